@@ -34,7 +34,8 @@ class SelectorWorld:
                'otype': rng.choice(['str', 'str', 'int']),
                'n0': rng.randint(1, 4),
                'allow_None': rng.random() < 0.3,
-               'watch': rng.random() < 0.7}
+               'watch': rng.random() < 0.7,
+               'hold': rng.random() < 0.4}
         n_ops = min(60 if big else 30, 2 + int(rng.expovariate(1 / (14.0 if big else 8.0))))
         ops = []
         style = cfg['style']
@@ -62,8 +63,8 @@ class SelectorWorld:
 
     def simplify(self, case):
         cfg = case['cfg']
-        for key, simple in (('kind', 'Selector'), ('level', 'class'), ('otype', 'str'), ('n0', 1), ('n0', 2), ('allow_None', False), ('watch', False)):
-            if cfg[key] != simple:
+        for key, simple in (('kind', 'Selector'), ('level', 'class'), ('otype', 'str'), ('n0', 1), ('n0', 2), ('allow_None', False), ('watch', False), ('hold', False)):
+            if cfg.get(key) != simple:
                 yield {**case, 'cfg': {**cfg, key: simple}}
         ops = case['ops']
         for i, op in enumerate(ops):
@@ -109,6 +110,7 @@ class SelectorWorld:
             else:
                 inst.param.watch(cb, ['sel'], what='objects', onlychanged=False)
         removed = []
+        held = [None]
         mutators = set()
         removed_any = False
         states = []
@@ -160,7 +162,13 @@ class SelectorWorld:
             mutated = True
             ret = exp_ret = None
             check_ret = False
-            objs = pobj.objects
+            if cfg.get('hold'):
+                # one proxy object is fetched once and reused for every mutation (re-fetched after a wholesale replacement)
+                if held[0] is None:
+                    held[0] = pobj.objects
+                objs = held[0]
+            else:
+                objs = pobj.objects
             try:
                 if k == 'setitem' and style == 'list' and n:
                     i = op['i'] % n
@@ -247,6 +255,7 @@ class SelectorWorld:
                     removed.extend(o for _, o in items)
                     pobj.objects = dict(new) if style == 'dict' else [o for _, o in new]
                     items[:] = new
+                    held[0] = None
                 elif k == 'assign' and n:
                     o = items[op['i'] % n][1]
                     setattr(holder, 'sel', [o] if cfg['kind'] == 'ListSelector' else o)
@@ -273,6 +282,9 @@ class SelectorWorld:
                     viol('C18.notify_once', f"{k}: the objects watcher was called {len(notes) - before} times", step)
             if check_ret and ret != exp_ret:
                 viol('C18.pop_returns', f"{k} returned {ret!r}, removed object is {exp_ret!r}", step)
+            if not out.violations and cfg.get('hold') and held[0] is not None and mutated:
+                if list(held[0]) != [o for _, o in items]:
+                    viol('C18.views', f"after {k}: the objects proxy used for the mutation lists {list(held[0])!r}, expected {[o for _, o in items]!r}", step)
             if not out.violations:
                 check(step, k)
             states.append(f"{style}|{len(items)}|{k}")
